@@ -486,6 +486,32 @@ impl Hostile {
             .to_string()
     }
 }
+/// closed-form side for the kinds whose log-density is NaN outside the support (1: gamma via ln x,
+/// 3: disc via sqrt); the gradient formulas are those of the tensor expression
+impl RefTarget for Hostile {
+    fn dim(&self) -> usize {
+        self.d
+    }
+    fn logp(&self, x: &[f64]) -> f64 {
+        self.logp64(x)
+    }
+    fn grad(&self, x: &[f64]) -> Vec<f64> {
+        match self.kind {
+            1 => x.iter().map(|a| self.p / a - 1.0).collect(),
+            3 => {
+                let r2: f64 = x.iter().map(|a| a * a).sum();
+                let den = self.p * self.p - r2;
+                // d/dx ln sqrt(den) = -x/den; outside the disc the tensor expression yields NaN
+                x.iter().map(|a| if den > 0.0 { -a / den } else { f64::NAN }).collect()
+            }
+            _ => panic!("closed-form gradient only provided for the NaN-region kinds"),
+        }
+    }
+    fn name(&self) -> String {
+        Hostile::name(self)
+    }
+}
+
 fn hostile_batch<B: AutodiffBackend>(s: &Hostile, x: Tensor<B, 2>) -> Tensor<B, 1> {
     let n = x.dims()[0];
     match s.kind {
